@@ -41,18 +41,19 @@ type vblk struct {
 }
 
 type vtree struct {
-	name    string
-	cfg     *params.ChainConfig
-	cfgName string
-	gspec   *Genesis
-	gendb   aquadb.Database
-	genesis *vblk
-	blocks  []*vblk // genesis first, parents before children
-	byHash  map[common.Hash]*vblk
-	txid    map[common.Hash]string
-	txs     []*types.Transaction
-	keys    []*btcec.PrivateKey
-	maxNum  uint64
+	oneCoinbase bool
+	name        string
+	cfg         *params.ChainConfig
+	cfgName     string
+	gspec       *Genesis
+	gendb       aquadb.Database
+	genesis     *vblk
+	blocks      []*vblk // genesis first, parents before children
+	byHash      map[common.Hash]*vblk
+	txid        map[common.Hash]string
+	txs         []*types.Transaction
+	keys        []*btcec.PrivateKey
+	maxNum      uint64
 	// scripted trees (replay of TLC-generated histories): keys[0], keys[1] are reserved for the shared
 	// transactions "t1", "t2" of the model; forced lists what the next block must carry
 	scripted bool
@@ -203,7 +204,11 @@ func (t *vtree) extend(rng *rand.Rand, parent *vblk, n int, ct vcontent, fixedOf
 				uncled[h] = true
 			}
 		}
-		bg.SetCoinbase(common.BigToAddress(big.NewInt(int64(0xc0ffee00 + rng.Intn(3)))))
+		cb := rng.Intn(3)
+		if t.oneCoinbase { // sibling blocks with the same content then have the same state root
+			cb = 0
+		}
+		bg.SetCoinbase(common.BigToAddress(big.NewInt(int64(0xc0ffee00 + cb))))
 		bg.SetExtra([]byte(fmt.Sprintf("v%d.%d", len(t.blocks), i))) // no two generated blocks are identical
 		if i == 0 {
 			for _, ftx := range t.forced {
